@@ -144,6 +144,27 @@ add("C12", "The cargo features are CONSTANTS of the store model (RobddOps): TLC 
     "its absence is covered by building and running the whole workload without it.",
     "TLA+ store model model-checked per feature constant setting; TLC trace validation of the same workload under each feature build + TLC record-by-record comparison with the default build", "6/C12")
 
+SERVER_NOTE = ("Trusted: TLC evaluating AdfSem / AdfSyntax / GraphOK / Server.tla; the MongoDB wire stub (equality filters, $set, replacement, unique index, "
+               "hold/release of commands) standing in for MongoDB; the raw HTTP client keeping one cookie jar per principal. Bounded: model with 1-2 principals, "
+               "2 account names, 1-2 problem names, <= 8 (thorough 10) requests interleaved at database-command granularity; code side: seeded sequential "
+               "scenarios plus the two race shapes. Real-time behaviour (120 s timeout, cookie expiry) and cryptographic strength are outside the model. "
+               "Listed known findings: F11a (rename window), F11b (stale task write).")
+add("C16", "Server.tla models handlers and background tasks with one action per database command / in-memory step; TLC explores all interleavings within the "
+    "bound with ghost causes: ResultsMatchCode, ErrorNotEmpty, EndedNotRunning hold and every wrong result is explained by the listed stale-write race (nothing "
+    "'unexplained'); --selftest shows the shipped continuation leaves a panicked task running forever and the strict invariant finds the stale write. The "
+    "unmodified server binary runs against the wire stub; for every problem shown or stored TLC parses the stored code with its own recogniser, recomputes the "
+    "definitional answers and compares models and graphs (GraphOK: reachable node set, root labels, lo/hi walk = acceptance condition under the shown model), "
+    "for both parsings and all six strategies; unparseable and panicking code must end as Error, solving it be refused, and no ended task be reported running.",
+    SERVER_NOTE, "TLA+ model of the service at database-command granularity model-checked with cause-classified invariants; TLC trace validation of real "
+    "HTTP/database observations against definitional semantics; race replay through a scheduling database stub", "6/C16")
+add("C17", "Same model with ghost ownership (accounts and documents remember the person who created them): within the bound every foreign read or effect is "
+    "explained by the rename window or the stale task write - nothing else ever leaks (569 k states); --selftest: dropping the owner filter from one handler "
+    "yields an unexplained foreign read. On the binary: statement labels carry the submitting principal, so TLC checks that no response to p contains a problem "
+    "p did not submit, that snapshot-to-snapshot deletions / re-ownings touch only the acting principals' documents, anonymous requests get 401, login "
+    "succeeds iff the password is the one last set, credentials are salted argon2 hashes; the rename window is replayed with the stub holding update_many.",
+    SERVER_NOTE, "TLA+ model with ghost ownership model-checked (all interleavings, cause-classified); TLC trace validation of multi-user histories on the real "
+    "binary; deterministic race replay via the database stub", "6/C17")
+
 def main():
     hooks = subprocess.run(["git", "-C", "/repo", "log", "--format=%H %s"], stdout=subprocess.PIPE, text=True).stdout.splitlines()
     hook_commits = [l.split()[0] for l in hooks if " verif hook" in l]
